@@ -550,4 +550,152 @@ Section WithCfg.
     - apply json_md_json_plain; [discriminate|assumption|assumption].
     - apply (json_md_json_detailed_sized (S (jsize j))); [lia|assumption].
   Qed.
+
+  (* ===== the conversion is defined exactly on the schema's language; outside it the result is Err ===== *)
+  Hypothesis Hlen : c_entry_lenient c = false.
+
+  Definition res_dom {A} (r : result A) (b : bool) : Prop := if b then exists a, r = Ok a else r = Err.
+
+  Lemma res_dom_mapM {A B} (f : A -> result B) (g : A -> bool) l :
+    Forall (fun x => res_dom (f x) (g x)) l -> res_dom (mapM f l) (forallb g l).
+  Proof.
+    induction 1 as [|x r Hx _ IH]; cbn [mapM forallb]; [now exists []|].
+    unfold res_dom in *. destruct (g x).
+    - destruct Hx as [y ->]. cbn [bind andb]. destruct (forallb g r).
+      + destruct IH as [ys ->]. now eexists.
+      + now rewrite IH.
+    - now rewrite Hx.
+  Qed.
+  Lemma res_dom_pair {A B} (r1 : result A) (r2 : result B) b1 b2 :
+    res_dom r1 b1 -> res_dom r2 b2 -> res_dom (let* a := r1 in let* b := r2 in Ok (a, b)) (b1 && b2).
+  Proof.
+    unfold res_dom. destruct b1; [intros [a ->]|intros ->; reflexivity]. cbn [bind andb].
+    destruct b2; [intros [b ->]; now eexists|intros ->; reflexivity].
+  Qed.
+  Lemma res_dom_bind {A B} (r : result A) (f : A -> B) b :
+    res_dom r b -> res_dom (let* a := r in Ok (f a)) b.
+  Proof. unfold res_dom. destruct b; [intros [a ->]; now eexists|intros ->; reflexivity]. Qed.
+  Lemma obj_all_forallb fk fv l : obj_all fk fv l = forallb (fun kv => fk (fst kv) && fv (snd kv)) l.
+  Proof. induction l as [|[k v] r IH]; cbn [obj_all forallb fst snd]; [reflexivity|]. now rewrite IH. Qed.
+
+  Lemma new_text_dom s : res_dom (new_text s) (blen s <=? MD_MAX_LEN).
+  Proof. unfold new_text, res_dom. destruct (MD_MAX_LEN <? blen s) eqn:E; destruct (blen s <=? MD_MAX_LEN) eqn:E2; try lia; eauto. Qed.
+  Lemma new_bytes_dom s : res_dom (new_bytes s) (blen s <=? MD_MAX_LEN).
+  Proof. unfold new_bytes, res_dom. destruct (MD_MAX_LEN <? blen s) eqn:E; destruct (blen s <=? MD_MAX_LEN) eqn:E2; try lia; eauto. Qed.
+  Lemma encode_number_dom j : res_dom (encode_number c j) (num_in_schema j).
+  Proof. rewrite encode_number_spec. unfold res_dom. destruct (num_in_schema j); eauto. Qed.
+  Lemma encode_string_basic_dom s : res_dom (encode_string s Basic) (basic_str_dom s).
+  Proof.
+    unfold encode_string, basic_str_dom. destruct (hex_string_to_bytes s); [apply new_bytes_dom|apply new_text_dom].
+  Qed.
+  Definition key_dom (sc : schema) (k : bytes) : bool :=
+    match sc with Basic => basic_key_dom k | _ => blen k <=? MD_MAX_LEN end.
+  Lemma encode_key_dom sc rk : sc <> Detailed -> res_dom (encode_key c sc rk) (key_dom sc rk).
+  Proof.
+    intros Hsc. destruct sc; [apply new_text_dom| |contradiction].
+    cbn [encode_key key_dom]. unfold basic_key_dom, int_key_range. rewrite Hkey. cbn [orb].
+    destruct (parse_i128 rk) as [x|]; [|apply encode_string_basic_dom].
+    destruct (in_range (- u64_max) u64_max x); cbn [orb]; [now eexists|apply encode_string_basic_dom].
+  Qed.
+
+  Theorem j2m_plain_domain sc j : sc <> Detailed -> res_dom (j2m c sc j) (dom_plain sc j).
+  Proof.
+    intros Hsc. induction j as [|b|z| |lit|s|l IH|l IH] using json_ind'.
+    - destruct sc; [reflexivity|reflexivity|contradiction].
+    - destruct sc; [reflexivity|reflexivity|contradiction].
+    - replace (j2m c sc (JInt z)) with (encode_number c (JInt z)) by (destruct sc; [reflexivity|reflexivity|contradiction]). apply encode_number_dom.
+    - replace (j2m c sc JNegZero) with (encode_number c JNegZero) by (destruct sc; [reflexivity|reflexivity|contradiction]). apply encode_number_dom.
+    - replace (j2m c sc (JFloat lit)) with (encode_number c (JFloat lit)) by (destruct sc; [reflexivity|reflexivity|contradiction]). apply encode_number_dom.
+    - destruct sc; [apply new_text_dom|apply encode_string_basic_dom|contradiction].
+    - rewrite j2m_plain_arr by assumption. cbn [dom_plain]. apply res_dom_bind. now apply res_dom_mapM.
+    - rewrite j2m_plain_obj by assumption. cbn [dom_plain]. apply res_dom_bind.
+      change (fun k => match sc with Basic => basic_key_dom k | _ => blen k <=? MD_MAX_LEN end) with (key_dom sc).
+      rewrite obj_all_forallb. apply res_dom_mapM.
+      eapply Forall_impl; [|exact IH]. intros [rk v] Hv. cbn [fst snd pair_enc] in *.
+      apply res_dom_pair; [now apply encode_key_dom|exact Hv].
+  Qed.
+
+  Lemma j2m_det_single k v : j2m c Detailed (JObj [(k, v)]) =
+    if bytes_eqb k k_int then match v with JInt _ | JNegZero | JFloat _ => encode_number c v | _ => Err end
+    else if bytes_eqb k k_string then match v with JStr s => new_text s | _ => Err end
+    else if bytes_eqb k k_bytes then
+      match v with JStr s => match unhex s with Some b => new_bytes b | None => Err end | _ => Err end
+    else if bytes_eqb k k_list then
+      match v with JArr l => let* xs := mapM (j2m c Detailed) l in Ok (MList xs) | _ => Err end
+    else if bytes_eqb k k_map then
+      match v with JArr es => let* kvs := mapM (entry_dec c) es in Ok (MMap (lhm_of_list kvs)) | _ => Err end
+    else Err.
+  Proof. reflexivity. Qed.
+
+  Definition entry_okb (f : json -> bool) (e : json) : bool :=
+    match e with
+    | JObj [(a, kj); (b, vj)] => bytes_eqb a k_k && bytes_eqb b k_v && f kj && f vj
+    | _ => false
+    end.
+  Lemma entries_all_forallb f es : entries_all k_k k_v f es = forallb (entry_okb f) es.
+  Proof.
+    induction es as [|e r IH]; [reflexivity|]. cbn [entries_all forallb]. unfold entry_okb at 1.
+    destruct e as [| | | | | | |l]; try reflexivity. destruct l as [|[a kj] [|[b vj] [|]]]; try reflexivity. now rewrite IH.
+  Qed.
+
+  Lemma entry_dec_domain e :
+    json_wf e = true ->
+    (forall x, (jsize x < jsize e)%nat -> json_wf x = true -> res_dom (j2m c Detailed x) (dom_detailed x)) ->
+    res_dom (entry_dec c e) (entry_okb dom_detailed e).
+  Proof.
+    intros Hwf IH. destruct e as [| | | | | | |l2]; try reflexivity.
+    unfold entry_dec, entry_shape_ok. rewrite Hlen. cbn [orb].
+    destruct l2 as [|[a x] [|[b y] [|p r]]].
+    - reflexivity.
+    - cbn [List.length Nat.eqb]. rewrite !andb_false_r. reflexivity.
+    - cbn [json_wf keys_ascending obj_all] in Hwf. rewrite !andb_true_iff in Hwf. destruct Hwf as [[Hlt _] [[_ Wx] [[_ Wy] _]]].
+      unfold has_key. cbn [obj_get List.length Nat.eqb entry_okb]. rewrite andb_true_r.
+      destruct (bytes_eqb a k_k) eqn:Ea; destruct (bytes_eqb b k_v) eqn:Eb.
+      + apply bytes_eqb_eq in Ea, Eb. subst a b. change (bytes_eqb k_k k_v) with false. cbn [andb].
+        pose proof (jsize_obj_in k_k x [(k_k, x); (k_v, y)] (or_introl eq_refl)) as S1.
+        pose proof (jsize_obj_in k_v y [(k_k, x); (k_v, y)] (or_intror (or_introl eq_refl))) as S2.
+        cbn [on_key]. rewrite bytes_eqb_refl. change (bytes_eqb k_k k_v) with false. rewrite bytes_eqb_refl.
+        apply res_dom_pair; apply IH; assumption.
+      + apply bytes_eqb_eq in Ea. subst a. change (bytes_eqb k_k k_v) with false. rewrite andb_false_r. reflexivity.
+      + apply bytes_eqb_eq in Eb. subst b. change (bytes_eqb k_v k_k) with false. cbn [andb]. reflexivity.
+      + cbn [andb]. destruct (bytes_eqb b k_k) eqn:Eb2; [|reflexivity].
+        destruct (bytes_eqb a k_v) eqn:Ea2; [|reflexivity].
+        apply bytes_eqb_eq in Eb2, Ea2. subst a b. vm_compute in Hlt. discriminate.
+    - cbn [List.length Nat.eqb]. rewrite !andb_false_r. reflexivity.
+  Qed.
+
+  Theorem j2m_detailed_domain_sized n : forall j, (jsize j < n)%nat -> json_wf j = true ->
+    res_dom (j2m c Detailed j) (dom_detailed j).
+  Proof.
+    induction n as [|n IHn]; intros j Hn Hwf; [lia|].
+    destruct j as [| | | | | | |l]; try reflexivity.
+    destruct l as [|[k v] [|]]; try reflexivity. rewrite j2m_det_single. cbn [dom_detailed].
+    cbn [json_wf keys_ascending obj_all] in Hwf. rewrite !andb_true_iff in Hwf. destruct Hwf as [_ [[_ Wv] _]].
+    pose proof (jsize_obj_in k v [(k, v)] (or_introl eq_refl)) as Sv.
+    destruct (bytes_eqb k k_int); [destruct v; try reflexivity; apply encode_number_dom|].
+    destruct (bytes_eqb k k_string); [destruct v; try reflexivity; apply new_text_dom|].
+    destruct (bytes_eqb k k_bytes).
+    { destruct v; try reflexivity. destruct (unhex s); [apply new_bytes_dom|reflexivity]. }
+    destruct (bytes_eqb k k_list).
+    { destruct v as [| | | | | |l|]; try reflexivity. apply res_dom_bind. apply res_dom_mapM.
+      cbn [json_wf] in Wv. rewrite forallb_forall in Wv. apply Forall_forall. intros x Hx.
+      apply IHn; [pose proof (jsize_arr_in x l Hx); lia|now apply Wv]. }
+    destruct (bytes_eqb k k_map); [|reflexivity].
+    destruct v as [| | | | | |es|]; try reflexivity. apply res_dom_bind. rewrite entries_all_forallb. apply res_dom_mapM.
+    cbn [json_wf] in Wv. rewrite forallb_forall in Wv. apply Forall_forall. intros e He.
+    apply entry_dec_domain; [now apply Wv|]. intros x Hx Wx. apply IHn; [pose proof (jsize_arr_in e es He); lia|exact Wx].
+  Qed.
+
+  Theorem j2m_domain sc j : json_wf j = true -> res_dom (j2m c sc j) (in_schema sc j).
+  Proof.
+    intros Hwf. destruct sc.
+    - apply j2m_plain_domain. discriminate.
+    - apply j2m_plain_domain. discriminate.
+    - apply (j2m_detailed_domain_sized (S (jsize j))); [lia|exact Hwf].
+  Qed.
+
+  Theorem out_of_schema_is_error sc j : json_wf j = true -> in_schema sc j = false -> j2m c sc j = Err.
+  Proof. intros Hwf H. pose proof (j2m_domain sc j Hwf) as D. now rewrite H in D. Qed.
+  Theorem in_schema_converts sc j : json_wf j = true -> in_schema sc j = true -> exists m, j2m c sc j = Ok m.
+  Proof. intros Hwf H. pose proof (j2m_domain sc j Hwf) as D. now rewrite H in D. Qed.
 End WithCfg.
